@@ -4,8 +4,8 @@
      - 16 tame text fields; at least one chart; #OFFSET = the first tempo offset;
      - the tempo rows of the first chart are the millisecond form of a tempo script on the snap grid
        (bco_to_bcs gives the script l, l is in C10's domainb with metronome 4, from_bcs init l gives back the sorted
-       rows literally), pairwise distinct offsets, positive bpm, each tempo beat a hundredth (the writer prints
-       tempo beats with two decimals) and pairwise distinct;
+       rows literally), pairwise distinct offsets, positive bpm, each tempo beat a millionth (the writer prints
+       tempo beats with six decimals) and pairwise distinct;
      - every chart: supported type, tame type/desc/diff, non-empty radar, the same tempo rows (literally),
        columns in range, hold lengths > 0, long notes of a column disjoint, every event time (heads and tails
        included) at or after the first tempo point and on the snap grid relative to the active tempo, no two events
@@ -86,7 +86,7 @@ Definition tempo_domb (rows : list (Q * Q * Q)) (init : Q) (l : list bcs) : bool
   && match from_bcs init l with Some bc => forallb2 bco_same bc SB | None => false end
   && dom_beats_posb tbl 0 init l (map bs_snap l) (map bo_off SB)
   && distinct_q (map (fun x => abs_beat (bs_snap x)) l)
-  && forallb (fun x => is_hundredth (abs_beat (bs_snap x))) l
+  && forallb (fun x => is_millionth (abs_beat (bs_snap x))) l
   && forallb (fun r : Q * Q * Q => time_okb init l (fst (fst r))) rows.
 
 (* the cumulative beat of a time: the integral of bpm/60000 (Domain2.beats_at), in lowest terms *)
@@ -125,16 +125,18 @@ Definition set_common_domb (s : smset) (init : Q) (l : list bcs) (c0 : smchart) 
   && tempo_domb (c_bpms c0) init l
   && match s_offset s with Some o => Qeq_bool o init | None => false end.
 
-Definition c03_domb_gen (s : smset) : bool :=
+(* the set-level domain, generic in the per-chart condition *)
+Definition c03_dom_with (chartdom : smchart -> smchart -> Q -> list bcs -> bool) (s : smset) : bool :=
   match s_maps s with
   | [] => false
   | c0 :: _ =>
       match tempo_script_of (c_bpms c0) with
       | None => false
       | Some (init, l) =>
-          set_common_domb s init l c0 && forallb (fun c => chart_domb c0 c init l) (s_maps s)
+          set_common_domb s init l c0 && forallb (fun c => chartdom c0 c init l) (s_maps s)
       end
   end.
+Definition c03_domb_gen (s : smset) : bool := c03_dom_with chart_domb s.
 
 (* ---- cap regime: some measure needs more than 384 rows; objects are written in row floor(pos * 384) ---- *)
 (* the cell (measure, row, column) of a placed note, rows counted with the writer's capped row count of its measure *)
@@ -150,14 +152,19 @@ Fixpoint distinct_cells (l : list (Z * Z * Z)) : bool :=
 Definition chart_cap_domb (c0 c : smchart) (init : Q) (l : list bcs) : bool :=
   chart_common_domb c0 c init l
   && distinct_cells (map (cell_of_placed (spec_placed init l c)) (spec_placed init l c)).
-Definition c03_cap_domb_gen (s : smset) : bool :=
-  match s_maps s with
-  | [] => false
-  | c0 :: _ =>
-      match tempo_script_of (c_bpms c0) with
-      | None => false
-      | Some (init, l) =>
-          set_common_domb s init l c0 && forallb (fun c => chart_cap_domb c0 c init l) (s_maps s)
-      end
-  end.
+Definition c03_cap_domb_gen (s : smset) : bool := c03_dom_with chart_cap_domb s.
+
+(* what a chart denotes in the cap regime: every object is read at the time of the row it was written in, and that
+   row's beat wb satisfies  wb <= beat < wb + 4/384  (the object's beat rounded down to the row grid, less than one
+   384th of a measure early; exactly the beat whenever the measure did not hit the cap) *)
+Definition cap_time (init : Q) (l : list bcs) (w : Q) : Q := time_of init l (snap_of_beat w).
+Definition cap_row_of (init : Q) (l : list bcs) (o w : Q) : Prop := w <= spec_beat init l o /\ spec_beat init l o < w + (4 # 384).
+Definition cap_note_rel (init : Q) (l : list bcs) (x y : note4) : Prop :=
+  fst (fst x) = fst (fst y)
+  /\ exists wh, cap_row_of init l (snd (fst y)) wh /\ snd (fst x) == cap_time init l wh
+      /\ ((snd x == 0 /\ snd y == 0)
+          \/ exists wt, cap_row_of init l (Qred (snd (fst y) + snd y)) wt /\ snd x == cap_time init l wt - cap_time init l wh).
+Definition chart_cap_denotes (init : Q) (l : list bcs) (dc : dchart) (c : smchart) : Prop :=
+  header_match 0 dc c = true
+  /\ forall k, exists a', Permutation (dnotes_of k (d_notes dc)) a' /\ Forall2 (cap_note_rel init l) a' (chart_list c k).
 End Dom.
